@@ -420,6 +420,11 @@ LEXICAL = {
     "OFFSET_PATTERN": (["+05:30", "-00:30", "+14:00", "-14:59:59"], ["+5:30", "05:30", "+05:3", "+05-30"]),
     "ZONE_PATTERN": (["@UTC", "@Europe/Warsaw", "@America/Argentina/Buenos_Aires", "@Etc/GMT+5", "@Etc/GMT-14", "@America/Port-au-Prince", "@Asia/Ho_Chi_Minh", "@EST5EDT"],
                      ["@", "Europe/Warsaw", "@Europe Warsaw"]),
+    # XML Schema durations: a `T` is followed by at least one time component, a decimal point by at least one digit (texts without any component - "P", "PT" - match the
+    # pattern and are rejected later by the reader, which wants one component: they are not in the table)
+    "REGEX_DAYS_AND_TIME": (["P1D", "-P1D", "PT1H", "PT1M", "PT1S", "PT0.5S", "P1DT2H3M4.123456789S", "-PT0.000000001S", "P18446744073709551615D", "PT36H"],
+                            ["P1DT", "-P0DT", "PT1.S", "P2DT3H4M5.S", "P1D2H", "1D", "P1H", "PT1D", "P-1D", "PT1S "]),
+    "REGEX_YEARS_AND_MONTHS": (["P1Y", "P1M", "P1Y2M", "-P1Y", "P14M", "P999999999Y"], ["P1Y2", "1Y", "P1M1Y", "P-1Y", "PT1M", "P1.5Y"]),
 }
 
 
